@@ -55,7 +55,11 @@ class PackageLoader(BaseLoader):
 
         # Don't build a path that escapes package/package_path.
         # Does ".." appear in template_name?
-        if template_path.is_absolute() or os.path.pardir in template_path.parts:
+        if (
+            template_path.is_absolute()
+            or os.path.pardir in template_path.parts
+            or not template_path.name
+        ):
             raise TemplateNotFoundError(template_name)
 
         # Add suffix self.ext if template name does not have a suffix.
@@ -64,9 +68,13 @@ class PackageLoader(BaseLoader):
 
         for path in self.paths:
             source_path = path.joinpath(str(template_path))
-            if source_path.is_file():
-                # MyPy seems to think source_path has `Any` type :(
-                return source_path  # type: ignore
+            try:
+                if source_path.is_file():
+                    # MyPy seems to think source_path has `Any` type :(
+                    return source_path  # type: ignore
+            except OSError:
+                # A name the file system can't handle, like one that is too long.
+                continue
 
         raise TemplateNotFoundError(template_name)
 
